@@ -62,7 +62,9 @@ func ValidateCompiledWithConfiguration(compiledRegoPtr *rego.PreparedEvalQuery, 
 	return report, err
 }
 
-func executeValidation(eventChan *chan e.Event, err error, compiledRego rego.PreparedEvalQuery, normalizedInput any) (*rego.ResultSet, error) {
+func executeValidation(eventChan *chan e.Event, err error, compiledRego rego.PreparedEvalQuery, normalizedInput any) (result *rego.ResultSet, evalErr error) {
+	defer recoverAsError(&evalErr)
+
 	dispatchEvent(e.NewEvent(e.OpaValidationStart), eventChan)
 	validationResult, err := compiledRego.Eval(context.Background(), rego.EvalInput(normalizedInput))
 	dispatchEvent(e.NewEvent(e.OpaValidationDone), eventChan)
